@@ -228,39 +228,13 @@ def analyse_cycles(ck, evs, what):
     return ncycles
 
 
-def run(ck, replay=None):
-    quick = ck.tier == "quick"
-    dbg = build()
-    exe = os.path.join(dbg, "h_uring")
-    if replay:
-        with open(replay) as f:
-            rp = json.load(f)
-        ctx = (rp.get("detail") or {}).get("context", "")
-        if ctx.startswith("twin:"):
-            argv = shlex.split(ctx[5:])
-            argv[0] = exe
-            ck.consume_result(vlib.run_one(argv, timeout=1800), ctx)
-        else:
-            replay = None  # cycle findings are deterministic in every cycle: a normal run shows them again
-        if replay:
-            return "replay of one twin shard: " + ctx
-    accepted = probe(ck, exe)
-    if not accepted:
-        ck.note_inconclusive("no set-up flag set accepted (io_uring unavailable?)")
-        return "nothing ran"
-    plan, skipped = twin_plan(ck, accepted, quick)
-    for b in skipped:
-        ck.count("planned_flag_sets_skipped_rejected_by_kernel")
-        ck.note_distinct("flagset-skipped/" + fl_names(b))
-    exes = [exe]
-    if not quick:
-        exes.append(os.path.join(build(release=True), "h_uring"))
-    tmp = tempfile.mkdtemp(prefix="c18-", dir="/tmp")
+def explore(ck, quick, exe, exes, plan, accepted, tmp):
+    """run the twin shards and the traced set-up/drop cycles; every process starts in (and writes only below) tmp"""
     jobs = []
     for i, (b, e, n) in enumerate(plan):
         x = exes[i % len(exes)]
         argv = [x, "twin", str(ck.seed * 7919 + i), str(n), "%x" % b, str(e)]
-        jobs.append(dict(argv=argv, timeout=1500 if quick else 7200, env=vlib.base_env({"C18_TMP": tmp})))
+        jobs.append(dict(argv=argv, timeout=1500 if quick else 7200, env=vlib.base_env({"C18_TMP": tmp}), cwd=tmp))
     # set-up / drop cycles under the tracer (all accepted sets, including the ones no operation can run on)
     rnd = vlib.rng(ck.seed, "c18-cycles")
     cyc_sets = list(accepted)
@@ -276,7 +250,7 @@ def run(ck, replay=None):
         log = os.path.join(tmp, "cycle-%d.log" % s)
         prog = [exe, "cycle", str(ck.seed + s), str(per), ",".join("%x" % b for b in sets)]
         cjobs.append((log, syslog.sysmon_cmd(log, prog, scope_markers=True, timeout_s=600 if quick else 3000, idle_ms=0)))
-    res = vlib.run_parallel(jobs + [dict(argv=c, timeout=700 if quick else 3200) for _, c in cjobs])
+    res = vlib.run_parallel(jobs + [dict(argv=c, timeout=700 if quick else 3200, cwd=tmp) for _, c in cjobs])
     flagsets_run = set()
     for j, r in zip(jobs, res[:len(jobs)]):
         what = "twin:" + " ".join(shlex.quote(a) for a in j["argv"])
@@ -298,7 +272,46 @@ def run(ck, replay=None):
             os.unlink(log)
         except OSError:
             pass
-    shutil.rmtree(tmp, ignore_errors=True)
+    return total_cycles
+
+
+def run(ck, replay=None):
+    quick = ck.tier == "quick"
+    dbg = build()
+    exe = os.path.join(dbg, "h_uring")
+    if replay:
+        with open(replay) as f:
+            rp = json.load(f)
+        ctx = (rp.get("detail") or {}).get("context", "")
+        if ctx.startswith("twin:"):
+            argv = shlex.split(ctx[5:])
+            argv[0] = exe
+            tmp = tempfile.mkdtemp(prefix="c18-", dir="/tmp")
+            try:
+                ck.consume_result(vlib.run_one(argv, timeout=1800, env=vlib.base_env({"C18_TMP": tmp}), cwd=tmp), ctx, expect_rc=(0, 3))
+            finally:
+                shutil.rmtree(tmp, ignore_errors=True)
+        else:
+            replay = None  # cycle findings are deterministic in every cycle: a normal run shows them again
+        if replay:
+            return "replay of one twin shard: " + ctx
+    accepted = probe(ck, exe)
+    if not accepted:
+        ck.note_inconclusive("no set-up flag set accepted (io_uring unavailable?)")
+        return "nothing ran"
+    plan, skipped = twin_plan(ck, accepted, quick)
+    for b in skipped:
+        ck.count("planned_flag_sets_skipped_rejected_by_kernel")
+        ck.note_distinct("flagset-skipped/" + fl_names(b))
+    exes = [exe]
+    if not quick:
+        exes.append(os.path.join(build(release=True), "h_uring"))
+    # private sandbox: harness processes run with it as cwd and build their twin worlds below it; removed on every path
+    tmp = tempfile.mkdtemp(prefix="c18-", dir="/tmp")
+    try:
+        total_cycles = explore(ck, quick, exe, exes, plan, accepted, tmp)
+    finally:
+        shutil.rmtree(tmp, ignore_errors=True)
     if total_cycles == 0:
         ck.note_inconclusive("no set-up/drop cycle was traced")
     ck.exhaustive = False
